@@ -20,6 +20,9 @@ impl View for TokenStream { type V = Seq<Tok>; uninterp spec fn view(&self) -> S
 pub fn vx_ts_new() -> (r: TokenStream) ensures r@ == Seq::<Tok>::empty() { unimplemented!() }
 #[verifier::external_body]
 pub fn vx_ts_lit(t: &mut TokenStream, code: u64) ensures final(t)@ == old(t)@.push(Tok::T(code)) { unimplemented!() }
+// a string literal written in a template: the same token as an interpolated string
+#[verifier::external_body]
+pub fn vx_ts_str(t: &mut TokenStream, s: &Str) ensures final(t)@ == old(t)@.push(Tok::S(s@)) { unimplemented!() }
 #[verifier::external_body]
 pub fn vx_ts_group(t: &mut TokenStream, d: VxDelim, x: TokenStream) ensures final(t)@ == old(t)@.push(Tok::G(d, x@)) { unimplemented!() }
 
